@@ -57,6 +57,7 @@ func cancelBody(maxPre int) nd.Body {
 	return func(c *nd.Ctx) nd.Result {
 		h := cancelHandshakes[c.Choose(len(cancelHandshakes), "handshake")]
 		capacity := []int{0, 48}[c.Choose(2, "pipe-capacity")]
+		withDeadline := c.Choose(2, "context-also-has-a-far-deadline") == 1
 		var s *xmpp.Session
 		var err error
 		returned := false
@@ -67,6 +68,13 @@ func cancelBody(maxPre int) nd.Body {
 			a, b := memconn.Pipe(capacity)
 			libEnd = a
 			ctx, cancel := context.WithCancel(context.Background())
+			if withDeadline {
+				// the context also carries a deadline that is far away: the call is
+				// ended by the cancellation, long before the deadline
+				var cancelD context.CancelFunc
+				ctx, cancelD = context.WithDeadline(ctx, time.Unix(1<<40, 0))
+				defer cancelD()
+			}
 			vs.GoNamed("peer", true, func() {
 				buf := make([]byte, 4096)
 				var seen strings.Builder
@@ -115,7 +123,7 @@ func cancelBody(maxPre int) nd.Body {
 			}
 			returned = true
 		})
-		desc := fmt.Sprintf("%s pipe-capacity=%d", h.name, capacity)
+		desc := fmt.Sprintf("%s pipe-capacity=%d far-deadline=%v", h.name, capacity, withDeadline)
 		c.Note("%s: outcome=%s returned=%v cancelled-before-return=%v err=%v", desc, out.Kind, returned, cancelledBeforeReturn, err)
 		for _, t := range out.Trace {
 			c.Note("  %s", t)
